@@ -1607,6 +1607,7 @@ fn dup_ids(out: &mut Out, sv: &Servers, id: u64, n: usize, seqno: usize) {
         let got: Vec<Vec<u8>> = t.frames.iter().map(|f| f.body.clone()).collect();
         if !t.problems.is_empty() || got != want || t.frames.iter().any(|f| f.h.id != id || f.h.ec != 0) {
             out.oracle_fail(&format!("dispatch.{}.duplicate_ids", ep.name), &format!("{} requests with id {}: got {} responses {:?} problems {:?}", n, id, t.frames.len(), t.frames.iter().map(|f| (f.h.id, f.h.ec, String::from_utf8_lossy(&f.body).into_owned())).collect::<Vec<_>>(), t.problems), &ops);
+            return; // one failing input is enough; every further endpoint would wait out its watchdog
         } else {
             out.count("dispatch.dup_ids.ok");
         }
